@@ -10,7 +10,7 @@
    directly on the 128-bit values) and the domain matcher (C11; its bitmap is a parameter `dm`). *)
 From Coq Require Import List NArith Bool String Ascii.
 From Dae Require Import C01_Spec.
-From Dae.gen Require Import C01_Consts.
+From Dae.gen Require Import C01_Consts C01_Patch.
 Import ListNotations.
 Open Scope N_scope.
 
@@ -30,14 +30,43 @@ Definition E_NO_HIT : N := 13.       (* no match set hit *)
 
 (* ---------- config/patch.go ---------- *)
 
+(* The strip operation on the outbound name is EXTRACTED from config/patch.go (gen/C01_Patch.v): which function of
+   package strings is applied and with which literal.  strings.TrimPrefix(s, p) removes p once if s starts with it;
+   strings.TrimLeft(s, cutset) removes every leading character that occurs in cutset. *)
+Fixpoint skip (n : nat) (s : string) : string :=
+  match n, s with
+  | O, _ => s
+  | S n', String _ r => skip n' r
+  | S _, EmptyString => EmptyString
+  end.
+Fixpoint in_cutset (c : ascii) (cut : string) : bool :=
+  match cut with EmptyString => false | String d r => Ascii.eqb c d || in_cutset c r end.
+Fixpoint trim_left (cut s : string) : string :=
+  match s with
+  | EmptyString => EmptyString
+  | String c r => if in_cutset c cut then trim_left cut r else s
+  end.
+Definition apply_strip (op : strip_op) (arg s : string) : string :=
+  match op with
+  | StripTrimPrefix => if prefix arg s then skip (String.length arg) s else s
+  | StripTrimLeft => trim_left arg s
+  | StripUnknown => s
+  end.
+
+(* the must_ patch as a function on outbound names: (new name, must) *)
+Definition patch_name_with (op : strip_op) (arg s : string) : string * bool :=
+  if prefix "must_" s then (apply_strip op arg s, true) else (s, false).
+Definition patch_name : string -> string * bool := patch_name_with patch_rule_strip_op patch_rule_strip_arg.
+
 Definition patch_rule_outbound (o : outbound) : outbound :=
   if prefix "must_" (o_name o) then
     if String.eqb (o_name o) "must_rules" then o   (* Reserve must_rules. *)
-    else {| o_name := strip_must (o_name o); o_params := o_params o ++ [OMust] |}
+    else {| o_name := apply_strip patch_rule_strip_op patch_rule_strip_arg (o_name o); o_params := o_params o ++ [OMust] |}
   else o.
 
 Definition patch_fallback (o : outbound) : outbound :=
-  if prefix "must_" (o_name o) then {| o_name := strip_must (o_name o); o_params := o_params o ++ [OMust] |}
+  if prefix "must_" (o_name o)
+  then {| o_name := apply_strip patch_fallback_strip_op patch_fallback_strip_arg (o_name o); o_params := o_params o ++ [OMust] |}
   else o.
 
 (* ---------- ParseOutbound ---------- *)
